@@ -53,15 +53,15 @@ def obligations(tier: str) -> list[dict]:
     else:
         for topo in ('flat1', 'flat2', 'flat3'):
             for sh in ('submit', 'map2', 'map3', 'next3', 'next_mix', 'nested', 'nested_map', 'two_rev', 'two_seq'):
-                obs.append(ob('msg/%s/%s/K2' % (topo, sh), topo, [sh], 'tables', 2, 2400, maxrank=3))
+                obs.append(ob('msg/%s/%s/K2' % (topo, sh), topo, [sh], 'tables', 2, 600, maxrank=3))
         for topo in ('mgr2x1', 'mgr1x2', 'mgr2x2'):
             for sh in ('submit', 'map2', 'next3', 'nested', 'two_rev'):
-                obs.append(ob('msg/%s/%s/K2' % (topo, sh), topo, [sh], 'tables', 2, 3000))
+                obs.append(ob('msg/%s/%s/K2' % (topo, sh), topo, [sh], 'tables', 2, 600))
         for sh in ('submit', 'map2'):
-            obs.append(ob('msg/flat2/%s/K3' % sh, 'flat2', [sh], 'tables', 2, 3000, maxrank=3))
+            obs.append(ob('msg/flat2/%s/K3' % sh, 'flat2', [sh], 'tables', 2, 600, maxrank=3))
         for topo in ('flat1', 'flat2'):
             for sh in ('submit', 'map2', 'next3', 'two_rev', 'nested'):
-                obs.append(ob('line/%s/%s/K2' % (topo, sh), topo, [sh], 'tables', 2 if topo == 'flat1' else 1, 3000,
+                obs.append(ob('line/%s/%s/K2' % (topo, sh), topo, [sh], 'tables', 2 if topo == 'flat1' else 1, 600,
                               line=True, maxrank=1))
-        obs.append(ob('msg/flat2/two-clients/K2', 'flat2', ['map2', 'submit'], 'tables', 2, 3000))
+        obs.append(ob('msg/flat2/two-clients/K2', 'flat2', ['map2', 'submit'], 'tables', 2, 600))
     return obs
